@@ -3,6 +3,7 @@ package c03lib
 import (
 	"fmt"
 	"math/rand"
+	"strings"
 
 	"github.com/vektah/gqlparser/v2/ast"
 	"github.com/vektah/gqlparser/v2/gqlerror"
@@ -120,6 +121,7 @@ func ProbeRules(schema *ast.Schema) []string {
 type Request struct {
 	R      int            `json:"r"`
 	Kind   string         `json:"kind"`
+	Rule   string         `json:"rule,omitempty"` // for per-rule documents (rules.go)
 	Query  string         `json:"query"`
 	OpName string         `json:"opname"`
 	Vars   map[string]any `json:"vars"`
@@ -179,8 +181,6 @@ var perrDocs = []string{"{ name", "query {", "{ name }}", "{ user { id }", "quer
 var unkDocs = []string{"{ nosuch }", "{ name zzz }", "{ user { nosuch } }", "{ user { id } bogus }", "mutation { nosuch }",
 	"{ user { friend { nope } } }", "query U { nosuch2 name }"}
 var noopDocs = []string{"fragment F on Query { name }", "fragment G on User { id }"}
-var invDocs = []string{"{ name { x } }", "{ user }", "{ find }", "{ name @nodir }", "query Q($x: Int) { name }",
-	"{ find(id: \"s\") }", "{ name ...Missing }", "{ find(id: 1, id: 2) }"}
 
 // Kinds is the request alphabet of the property statement (plus "invalid":
 // a document failing another validation rule than field existence).
@@ -207,6 +207,19 @@ func GenRequest(rng *rand.Rand, kind string, exts []HookSet, allowSub bool) *Req
 	q := &Request{Kind: kind, Rej: Rej{K: "none"}, Vars: map[string]any{}}
 	switch kind {
 	case "valid":
+		if rng.Intn(3) == 0 {
+			for {
+				d := pick(rng, NearMiss)
+				if !d.QOnly && (allowSub || !strings.HasPrefix(d.Query, "subscription")) {
+					q.FromRuleDoc(d)
+					break
+				}
+			}
+			if len(exts) > 0 && rng.Intn(6) == 0 {
+				q.Rej = Rej{K: pick(rng, []string{"pm", "cm"}), I: 1 + rng.Intn(len(exts))}
+			}
+			return q
+		}
 		for {
 			d := pick(rng, okDocs)
 			if !allowSub && len(d.query) > 12 && d.query[:12] == "subscription" {
@@ -241,7 +254,15 @@ func GenRequest(rng *rand.Rand, kind string, exts []HookSet, allowSub bool) *Req
 	case "no-operation":
 		q.Query = pick(rng, noopDocs)
 	case "invalid":
-		q.Query = pick(rng, invDocs)
+		// one document class per default validation rule (rules.go)
+		for {
+			d := pick(rng, InvalidByRule)
+			if !d.QOnly {
+				q.FromRuleDoc(d)
+				break
+			}
+		}
+		return q
 	default:
 		panic("unknown kind " + kind)
 	}
@@ -300,9 +321,23 @@ var kindClass = map[string][3]string{
 
 // Consistent reports whether the independent classification agrees with the
 // kind the generator meant to produce (a disagreement is a harness error).
+// For documents that never get past parsing / validation only the document
+// class matters.
 func (q *Request) Consistent() bool {
 	w, ok := kindClass[q.Kind]
+	if ok && w[0] != "ok" {
+		return w[0] == q.Cls
+	}
 	return ok && w == [3]string{q.Cls, q.OpSel, q.VarCls}
+}
+
+// FromRuleDoc makes q a request for a per-rule document.
+func (q *Request) FromRuleDoc(d RuleDoc) {
+	q.Query, q.OpName, q.Rule = d.Query, d.OpName, d.Rule
+	q.Vars = map[string]any{}
+	for k, v := range d.Vars {
+		q.Vars[k] = v
+	}
 }
 
 // Accepted says whether the request passes every gate (the model computes
